@@ -1,4 +1,5 @@
-import RsMatterVerif.Model.Case
+import RsMatterVerif.Model.CaseNet
+import RsMatterVerif.Model.CaseCache
 import Driver.C19
 import Driver.Util
 /-! Driver for C01: replays two-node CASE handshakes on the symbolic model (`Model/Case`) and
@@ -9,10 +10,17 @@ open Cert Case
 structure St where
   ctl : Option Fabric := none
   dev : Option Fabric := none
+  /-- the node id the controller addresses (the device's at the time of `hs`) -/
+  peer : Nat := 0
   cacheI : List ResRec := []
   cacheR : List ResRec := []
   /-- fresh-value counter (ephemeral keys, randoms, session / resumption ids) -/
   n : Nat := 0
+  /-- the caches the IMPLEMENTATION reported after the previous operation -/
+  implCc : String := "-"
+  implDc : String := "-"
+  /-- largest byte-string name the implementation has used so far -/
+  maxName : Option Nat := none
 deriving Inhabited
 
 def mkFabric (idx : Nat) (root noc : Cert) (icac : Option Cert) (opKey : Option Nat) : Fabric :=
@@ -53,6 +61,8 @@ def mutField (name : String) (tag : Nat) (m : Msg) : Msg :=
 structure Outcome where
   ctl : Option Session := none
   dev : Option Session := none
+  /-- which answer the responder gave to Sigma1: `r` Sigma2_Resume, `f` Sigma2, `-` none -/
+  via : String := "-"
 deriving Inhabited
 
 def fmtSess : Option Session → String
@@ -65,51 +75,56 @@ def fmtOutcome (o : Outcome) : String :=
   let keys := match o.ctl, o.dev with
     | some a, some b => if a.i2r = b.i2r ∧ a.r2i = b.r2i then "agree" else "differ"
     | _, _ => "na"
-  s!"ctl={fmtSess o.ctl} dev={fmtSess o.dev} keys={keys}"
+  s!"ctl={fmtSess o.ctl} dev={fmtSess o.dev} keys={keys} via={o.via}"
 
-def upsert (cache : List ResRec) (r : ResRec) : List ResRec :=
-  (cache.filter fun x => !(x.fabIdx == r.fabIdx && x.peerNode == r.peerNode)) ++ [r]
+/-- capacity of the resumption cache used for the two-node runs (never reached there; the `cache`
+stream uses the real value the harness reports) -/
+def capDefault : Nat := 15
 
-/-- one handshake between the two nodes; `mut` = (message, field) hit by a bit flip on its first
-transmission -/
-def runHs (t : Time) (st : St) (cf df : Fabric) (mutn : Option (String × Nat)) : Outcome × St :=
+def nameOf : Msg → String
+  | .sigma1 .. => "s1"
+  | .sigma2 .. => "s2"
+  | .sigma3 _ => "s3"
+  | .sigma2Resume .. => "r2"
+  | .status _ => "st"
+  | .junk _ => "jk"
+
+/-- one handshake between the two nodes on a perfect network, composed from the SAME step
+functions `stepResp` / `stepInit` the network theorem is about (`Model/CaseNet.lean`);
+`muts` = (message, field) pairs hit by a change on the first transmission -/
+def runHs (t : Time) (st : St) (cf : Fabric) (dfs : List Fabric) (peer : Nat)
+    (muts : List (String × Nat)) : Outcome × St :=
   let n := st.n
   let st := { st with n := n + 10 }
-  let app (name : String) (m : Msg) : Msg :=
-    match mutn with
-    | some (nm, tag) => if nm = name then mutField name tag m else m
-    | none => m
-  let c := initSigma1 cf st.cacheI df.nodeId (n + 1) (.atom (10000 + n)) (.atom (20000 + n))
-  let m1 := app "s1" c.s1
-  match respResume [df] st.cacheR m1 (.atom (30000 + n)) (.atom (40000 + n)) with
-  | some ctxR =>
-    let m2 := app "r2" ctxR.s2r
-    match initSigma2Resume c m2 with
-    | some (sI, rI) =>
-      -- the initiator sends the success status report
-      match respResumeFinish ctxR (.status true) with
-      | some (sR, rR) =>
-        ({ ctl := some sI, dev := some sR },
-         { st with cacheI := upsert st.cacheI rI, cacheR := upsert st.cacheR rR })
-      | none => ({ ctl := some sI }, { st with cacheI := upsert st.cacheI rI })
-    | none => ({}, st)
-  | none =>
-    match respSigma1 [df] m1 (n + 2) (.atom (50000 + n)) (.atom (30000 + n)) (.atom (40000 + n)) with
-    | .refused => ({}, st)
-    | .sent ctx =>
-      let m2 := app "s2" ctx.s2
-      match initSigma2 t c m2 with
-      | none => ({}, st)
-      | some c3 =>
-        let m3 := app "s3" c3.s3
-        match respSigma3 t ctx m3 with
-        | none => ({}, st)
-        | some (sR, rR) =>
-          match initFinish c3 (.status true) with
-          | some (sI, rI) =>
-            ({ ctl := some sI, dev := some sR },
-             { st with cacheI := upsert st.cacheI rI, cacheR := upsert st.cacheR rR })
-          | none => ({ dev := some sR }, { st with cacheR := upsert st.cacheR rR })
+  let cfg : HsCfg :=
+    { t := t, fabricsR := dfs, cacheR := st.cacheR, fI := cf, cacheI := st.cacheI, peer := peer,
+      ephI := n + 1, ephR := n + 2, rndI := .atom (10000 + n), sidI := .atom (20000 + n),
+      rndR := .atom (50000 + n), ridR := .atom (30000 + n), sidR := .atom (40000 + n) }
+  let app (m : Msg) : Msg :=
+    muts.foldl (fun acc (nm, tag) => if nm = nameOf m then mutField nm tag acc else acc) m
+  let i0 := IState.sent1 cfg.init0
+  let (r1, o1) := stepResp cfg .idle (app cfg.init0.s1)
+  let (i1, p1) := match o1 with
+    | m :: _ => stepInit cfg i0 (app m)
+    | [] => (i0, [])
+  let (r2, o2) := match p1 with
+    | m :: _ => stepResp cfg r1 (app m)
+    | [] => (r1, [])
+  let (i2, _) := match o2 with
+    | m :: _ => stepInit cfg i1 (app m)
+    | [] => (i1, [])
+  let via := match r1 with
+    | .sent2r _ => "r"
+    | .sent2 _ => "f"
+    | _ => "-"
+  let cI := match i2.result with
+    | some (_, rI) => Cache.insertOrUpdate capDefault st.cacheI rI
+    | none => st.cacheI
+  let cR := match r2.result with
+    | some (_, rR) => Cache.insertOrUpdate capDefault st.cacheR rR
+    | none => st.cacheR
+  ({ ctl := i2.result.map (·.1), dev := r2.result.map (·.1), via := via },
+   { st with cacheI := cI, cacheR := cR })
 
 /-! ## oracle: the clauses of the property on what the implementation reports -/
 
@@ -151,24 +166,182 @@ def checkSide (side : String) (t : Time) (mine peer : Fabric) (s : String) : Opt
       else if loc ≠ mine.nodeId then some s!"{side}: wrong local node id: {s}"
       else none
 
-def oracle (t : Time) (cf df : Fabric) (out : String) : Option String :=
+def oracle (t : Time) (cf : Fabric) (df? : Option Fabric) (out : String) : Option String :=
   if out.startsWith "panic" then some "panic in the code under test" else
   let c := field out "ctl"
   let d := field out "dev"
-  match checkSide "controller" t cf df c with
-  | some w => some w
+  match df? with
   | none =>
-    match checkSide "device" t df cf d with
+    -- the device holds no fabric at all
+    if c ≠ "none" ∨ d ≠ "none" then some s!"a session although the device has no fabric: {out}" else none
+  | some df =>
+    match checkSide "controller" t cf df c with
     | some w => some w
     | none =>
-      -- the controller only ever wanted to talk to the device's node id
-      if c ≠ "none" ∧ d ≠ "none" ∧ field out "keys" ≠ "agree" then
-        some s!"both ends hold a session but not the same directional keys: {out}"
-      else none
+      match checkSide "device" t df cf d with
+      | some w => some w
+      | none =>
+        if c ≠ "none" ∧ d ≠ "none" ∧ field out "keys" ≠ "agree" then
+          some s!"both ends hold a session but not the same directional keys: {out}"
+        else none
+
+/-! ### the resumption caches as the implementation reports them -/
+
+structure CRec where
+  fab : Nat
+  peer : Nat
+  cats : List Nat
+  rid : Nat
+  sec : Nat
+deriving DecidableEq, Inhabited
+
+def parseCRec (s : String) : Option CRec :=
+  match s.splitOn ":" with
+  | [f, p, c, r, k] =>
+    match f.toNat?, p.toNat?, r.toNat?, k.toNat? with
+    | some f, some p, some r, some k =>
+      some { fab := f, peer := p, cats := if c = "-" then [] else (c.splitOn ".").filterMap String.toNat?,
+             rid := r, sec := k }
+    | _, _, _, _ => none
+  | _ => none
+
+def parseCache (s : String) : Option (List CRec) :=
+  if s = "-" ∨ s = "" then some [] else (s.splitOn "+").mapM parseCRec
+
+def shapeOf (c : List CRec) : List (Nat × Nat × List Nat) := c.map fun r => (r.fab, r.peer, r.cats)
+
+def modelShape (c : List ResRec) : List (Nat × Nat × List Nat) := c.map fun r => (r.fabIdx, r.peerNode, r.cats)
+
+/-- first-occurrence numbering of a list (equality pattern) -/
+def pattern {α} [DecidableEq α] (l : List α) : List Nat :=
+  let rec go (seen : List α) : List α → List Nat
+    | [] => []
+    | x :: xs =>
+      match seen.idxOf? x with
+      | some i => i :: go seen xs
+      | none => seen.length :: go (seen ++ [x]) xs
+  go [] l
+
+/-- clauses about resumption on the implementation's own report.
+`pre*` = caches before the operation, `post*` after -/
+def oracleResume (st : St) (out : String) (preC preD postC postD : List CRec) : Option String :=
+  let via := field out "via"
+  let c := field out "ctl"
+  let d := field out "dev"
+  let rid? := (field out "rid").toNat?
+  -- a resumed responder session takes exactly the identity of the record with the received id
+  let o1 : Option String :=
+    if via = "r" ∧ d ≠ "none" then
+      match parseSess d, rid? with
+      | some (fab, p, cats, _), some rid =>
+        match preD.find? (fun r => r.rid == rid) with
+        | none => some s!"device resumed a session but held no record with the resumption id it received: {out}"
+        | some r =>
+          if (r.fab, r.peer, r.cats) ≠ (fab, p, cats) then
+            some s!"device: resumed session identity differs from the record's: {out}"
+          else none
+      | _, _ => some s!"device resumed a session without a resumption id in Sigma1: {out}"
+    else none
+  let o2 : Option String :=
+    if via = "r" ∧ c ≠ "none" then
+      match parseSess c with
+      | some (fab, p, cats, _) =>
+        match preC.find? (fun r => r.fab == fab && r.peer == p) with
+        | none => some s!"controller resumed a session but held no record for that peer: {out}"
+        | some r => if r.cats ≠ cats then some s!"controller: resumed session CATs differ from the record's: {out}" else none
+      | none => none
+    else none
+  -- ids that are new in a cache are fresh: never seen before in this case
+  let newIds := ((postC ++ postD).filter fun r => !((preC ++ preD).any fun q => q.rid == r.rid)).map (·.rid)
+  let o3 : Option String :=
+    match st.maxName with
+    | some mx => if newIds.any (fun i => i ≤ mx) then some s!"a new resumption id is not fresh: {out}" else none
+    | none => none
+  -- both ends resumed: same new id, the old secret
+  let o4 : Option String :=
+    if via = "r" ∧ c ≠ "none" ∧ d ≠ "none" then
+      match parseSess c, parseSess d with
+      | some (fc, pc, _, lc), some (fd, pd, _, _) =>
+        match postC.find? (fun r => r.fab == fc && r.peer == pc), postD.find? (fun r => r.fab == fd && r.peer == pd),
+              preC.find? (fun r => r.fab == fc && r.peer == pc) with
+        | some a, some b, some a0 =>
+          if pd ≠ lc then none
+          else if a.rid ≠ b.rid then some s!"after a resumption the two caches hold different resumption ids: {out}"
+          else if a.sec ≠ b.sec ∨ a.sec ≠ a0.sec then some s!"a resumption changed the shared secret of the record: {out}"
+          else if a.rid = a0.rid then some s!"a resumption did not rotate the resumption id: {out}"
+          else none
+        | _, _, _ => some s!"after a resumption a cache lacks the record: {out}"
+      | _, _ => none
+    else none
+  o1 <|> o2 <|> o3 <|> o4
+
+/-- the implementation's cache as model records: byte strings become atoms named after them, so
+that exactly the reported equalities hold -/
+def translate (cs : List CRec) : List ResRec :=
+  cs.map fun r => { fabIdx := r.fab, peerNode := r.peer, cats := r.cats, rid := .atom (800000 + r.rid),
+                    secret := .atom (810000 + r.sec) }
+
+def maxNameOf (mx : Option Nat) (cs : List CRec) : Option Nat :=
+  cs.foldl (fun acc r =>
+    let m := max r.rid r.sec
+    match acc with
+    | some a => some (max a m)
+    | none => some m) mx
+
+/-! ### the `cache` stream: the real `ResumableSessions` against `Model/CaseCache.lean` -/
+
+def showRec (r : ResRec) : String :=
+  let n (t : Term) : Nat := match t with | .atom k => k | _ => 0
+  s!"{r.fabIdx}:{r.peerNode}:{r.cats.headD 0}:{n r.rid}:{n r.secret}"
+
+def nums (s : String) : List Nat := (s.splitOn ".").filterMap String.toNat?
+
+/-- runs the op string on the model; `impl` = the implementation's answer tokens (needed for the
+capacity and for how much of a truncated blob it still parsed) -/
+def runCacheOps (ops : List String) (impl : List String) : String × Option String :=
+  let cap := ((impl.head?.map fun s => (s.drop 3).toString).bind String.toNat?).getD capDefault
+  let rec go (ops : List String) (impl : List String) (c : Cache) (acc : List String) (ora : Option String) :
+      List String × Cache × Option String :=
+    match ops with
+    | [] => (acc, c, ora)
+    | op :: rest =>
+      let v := nums (op.drop 1).toString
+      let g (i : Nat) : Nat := v.getD i 0
+      match op.front with
+      | 'i' =>
+        let r : ResRec := { fabIdx := max (g 0) 1, peerNode := g 1, cats := [g 2], rid := .atom (g 3), secret := .atom (g 4) }
+        go rest impl (c.insertOrUpdate cap r) acc ora
+      | 'r' => go rest (impl.drop 1) c (acc ++ [((c.findByRid (.atom (g 0))).map showRec).getD "none"]) ora
+      | 'p' => go rest (impl.drop 1) c (acc ++ [((c.findByPeer (max (g 0) 1) (g 1)).map showRec).getD "none"]) ora
+      | 'f' => go rest impl (c.removeForFabric (max (g 0) 1)) acc ora
+      | 'x' => go rest impl (c.removeByPeer (max (g 0) 1) (g 1)) acc ora
+      | 's' =>
+        let c' := Cache.load cap (some c.store)
+        go rest (impl.drop 1) c' (acc ++ [s!"loaded{c'.length}kv1"]) ora
+      | 't' =>
+        -- a truncated blob: whatever the implementation still loads must be a prefix of what was stored
+        let tok := impl.headD ""
+        let k := (((tok.drop 6).toString.splitOn "kv").headD "").toNat?.getD 0
+        let ora' := if k ≤ c.length then ora else some s!"loaded more records ({k}) than were stored ({c.length})"
+        go rest (impl.drop 1) (c.take k) (acc ++ [tok]) ora'
+      | _ => go rest (impl.drop 1) c (acc ++ ["bad"]) ora
+  let (acc, c, ora) := go ops (impl.drop 1) [] [s!"cap{cap}"] none
+  let content := if c.isEmpty then "-" else "+".intercalate (c.map showRec)
+  (s!"{" ".intercalate acc} | {content}", ora)
 
 def parseMut (s : String) : Option (String × String × Nat) :=
   match s.splitOn ":" with
   | m :: k :: rest => some (m, k, ((rest.head?).bind String.toNat?).getD 0)
+  | _ => none
+
+/-- the changes of a mutation the model can follow: a bit flip in a field and a value from a
+handshake of other nodes both put a value nobody computed into the field -/
+def predictableMuts (mu : Option (String × String × Nat)) : Option (List (String × Nat)) :=
+  match mu with
+  | none => some []
+  | some (m, "f", a) => some [(m, a)]
+  | some (m, "y", a) => some [(m, a)]
+  | some (m, "Y", _) => some [(m, 6), (m, 7)]
   | _ => none
 
 def step (st : St) (line : String) : St × String :=
@@ -176,6 +349,35 @@ def step (st : St) (line : String) : St × String :=
   let toks := words op
   match toks with
   | "case" :: _ => ({}, "case")
+  | "cache" :: spec :: _ =>
+    let implToks := words ((out.splitOn " | ").headD "")
+    let (want, ora) := runCacheOps ((spec.splitOn ";").filter (· ≠ "")) implToks
+    match ora with
+    | some w => (st, s!"ORA {w}")
+    | none => if want = out then (st, "ok") else (st, s!"DIS {want}")
+  | "foreign" :: _ => if out = "foreign resumed" then (st, "ok") else (st, "DIS foreign resumed")
+  | "rmfab" :: _ =>
+    let dc := (parseCache (field out "dc")).getD []
+    let st' := { st with dev := none, cacheR := Cache.removeForFabric st.cacheR 1, implDc := field out "dc" }
+    if ¬ out.startsWith "removed" then (st', "DIS removed")
+    else if dc.any (fun r => r.fab == 1) then
+      (st', s!"ORA the device removed fabric 1 but still holds a resumption record of it: {out}")
+    else if shapeOf dc ≠ modelShape st'.cacheR then (st', s!"DIS removed dc-shape differs")
+    else (st', "ok")
+  | "addfab" :: rest =>
+    let rec? (k : String) : Option Cert := (Driver.C19.kv k rest).bind Driver.C19.parseRec
+    let orec (k : String) : Option Cert :=
+      match Driver.C19.kv k rest with
+      | some "-" => none
+      | some v => Driver.C19.parseRec v
+      | none => none
+    if out.startsWith "fabric:" then (st, "ok") else
+    match rec? "root", rec? "dnoc" with
+    | some root, some dnoc =>
+      let key := (Driver.C19.kv "dkey" rest).bind String.toNat?
+      let st' := { st with dev := some (mkFabric 1 root dnoc (orec "dicac") key), implDc := field out "dc" }
+      if out.startsWith "added idx=1" then (st', "ok") else (st', "DIS added idx=1")
+    | _, _ => (st, "BAD addfab")
   | kind :: rest =>
     if out.startsWith "fabric:" ∨ out = "nostate" ∨ out = "bad" then (st, "ok") else
     let st : St :=
@@ -190,34 +392,51 @@ def step (st : St) (line : String) : St × String :=
         | some root, some cnoc, some dnoc =>
           let droot := (rec? "droot").getD root
           let key (k : String) : Option Nat := (Driver.C19.kv k rest).bind String.toNat?
-          { ctl := some (mkFabric 1 root cnoc (orec "cicac") (key "ckey")),
-            dev := some (mkFabric 1 droot dnoc (orec "dicac") (key "dkey")), n := 0 }
+          -- a dishonest peer keeps the identity it was installed with and presents other credentials
+          let present (f : Fabric) (pn : Option Cert) (pi : Option Cert) (k : Option Nat) : Fabric :=
+            match pn with
+            | some n => { f with noc := n, icac := pi, opKey := k.getD n.pubKey }
+            | none => f
+          { ctl := some (present (mkFabric 1 root cnoc (orec "cicac") (key "ckey")) (rec? "cpnoc") (orec "cpicac") (key "ckey")),
+            dev := some (present (mkFabric 1 droot dnoc (orec "dicac") (key "dkey")) (rec? "dpnoc") (orec "dpicac") (key "dkey")),
+            peer := (nodeIdOf dnoc.subject).getD 0, n := 0 }
         | _, _, _ => {}
       else st
-    match st.ctl, st.dev, Driver.C19.parseTime (field out "t") with
-    | some cf, some df, some t =>
+    match st.ctl, Driver.C19.parseTime (field out "t") with
+    | some cf, some t =>
       let mu := (Driver.C19.kv "mut" rest).bind parseMut
       let sched := Driver.C19.kv "sched" rest
-      let ora := oracle t cf df out
-      -- model prediction: unmutated runs and single-field bit flips on a perfect network
-      let predictable : Bool := sched.isNone && (match mu with | none => true | some (_, k, _) => k == "f")
-      let (o, st') := runHs t st cf df (mu.bind fun (m, k, a) => if k = "f" then some (m, a) else none)
-      -- after a run the model cannot follow (other mutations, schedules) the caches are taken
-      -- from what the implementation did: both ends live => both caches updated as in the model;
-      -- otherwise resumption state is unknown and the model restarts from empty caches
-      let stNext : St :=
-        if predictable then st'
-        else if field out "ctl" ≠ "none" ∧ field out "dev" ≠ "none" then st'
-        else { st with cacheI := [], cacheR := [], n := st.n + 10 }
+      let ora := oracle t cf st.dev out
+      let preC := (parseCache st.implCc).getD []
+      let preD := (parseCache st.implDc).getD []
+      let postC := (parseCache (field out "cc")).getD []
+      let postD := (parseCache (field out "dc")).getD []
+      let ora := ora <|> oracleResume st out preC preD postC postD
+      -- model prediction: unmutated runs and single-field changes on a perfect network
+      let pm := if sched.isNone then predictableMuts mu else none
+      let predictable : Bool := pm.isSome
+      let (o, st') := runHs t st cf st.dev.toList st.peer (pm.getD [])
+      -- `st'` = the model's state after the run (compared below when the run is predictable);
+      -- afterwards the model continues from the caches the implementation reports (named byte
+      -- strings become atoms), so that it can follow runs it could not predict
+      let stNext := { st' with implCc := field out "cc", implDc := field out "dc",
+                               maxName := maxNameOf (maxNameOf st.maxName postC) postD }
+      let resync (s : St) : St := { s with cacheI := translate postC, cacheR := translate postD }
       match ora with
-      | some w => (stNext, s!"ORA {w}")
+      | some w => (resync stNext, s!"ORA {w}")
       | none =>
         if predictable then
           let want := fmtOutcome o
-          let got := s!"ctl={field out "ctl"} dev={field out "dev"} keys={field out "keys"}"
-          if want = got then (stNext, "ok") else (stNext, s!"DIS {want}")
-        else (stNext, "ok")
-    | _, _, _ => (st, "BAD setup")
+          let got := s!"ctl={field out "ctl"} dev={field out "dev"} keys={field out "keys"} via={field out "via"}"
+          if want ≠ got then (resync stNext, s!"DIS {want}")
+          else if shapeOf postC ≠ modelShape stNext.cacheI ∨ shapeOf postD ≠ modelShape stNext.cacheR then
+            (resync stNext, s!"DIS cache shapes cc={modelShape stNext.cacheI} dc={modelShape stNext.cacheR}")
+          else if pattern ((postC ++ postD).map (·.rid)) ≠ pattern ((stNext.cacheI ++ stNext.cacheR).map (·.rid)) ∨
+              pattern ((postC ++ postD).map (·.sec)) ≠ pattern ((stNext.cacheI ++ stNext.cacheR).map (·.secret)) then
+            (resync stNext, "DIS resumption-id / shared-secret equalities between the caches differ")
+          else (resync stNext, "ok")
+        else (resync stNext, "ok")
+    | _, _ => (st, "BAD setup")
   | _ => (st, "BAD op")
 
 def run : IO UInt32 := Driver.runLoop ({} : St) step
